@@ -1707,6 +1707,17 @@ def g_mod(m):
 
 
 def to_coq(case, obs):
+    term = _to_coq(case, obs)
+    if case.get('kind') in ('tree', 'tabor', 'compat') and term != 'CCrash':
+        try:
+            if _classify_input(case, obs) is not None:
+                _PENDING[vlib.canonical_hash([case, obs])] = term          # see _model_agrees
+        except Exception:
+            pass
+    return term
+
+
+def _to_coq(case, obs):
     if 'crash' in obs or 'hang' in obs:
         return 'CCrash'
     if case['kind'] == 'dur':
@@ -1912,6 +1923,7 @@ def _dropped_comes_back(case):
 
 
 _MODEL_AGREES = {}
+_PENDING = {}
 
 
 def _model_agrees(case, obs):
@@ -1920,6 +1932,21 @@ def _model_agrees(case, obs):
     (check_corr, one coqc call per such case, memoised).  A change of the code that shows only inside the input class
     of a finding is then a violation instead of disappearing under the finding."""
     key = vlib.canonical_hash([case, obs])
+    if key not in _MODEL_AGREES and _PENDING:
+        # every case of the run that lies in the input class of a finding was registered by to_coq: one batch
+        pend = list(_PENDING.items())
+        _PENDING.clear()
+        wd = os.path.join(vlib.BUILD, 'c15_classify_%d' % os.getpid())
+        try:
+            res = vlib.run_coq_cases(wd, CORR_IMPORTS, [CHECK_CORR], [t for _, t in pend], case_type='case', shard=SHARD,
+                                     prelude='')
+            bad = set(res[CHECK_CORR])
+            for i, (k, _) in enumerate(pend):
+                _MODEL_AGREES[k] = i not in bad
+        except Exception:
+            pass
+        finally:
+            vlib.rmtree(wd)
     if key not in _MODEL_AGREES:
         wd = os.path.join(vlib.BUILD, 'c15_classify_%d' % os.getpid())
         try:
